@@ -161,7 +161,7 @@ theorem handleSuccess_raw (a : Agent) (now : Nat) (m : Msg) (l r : Cand) (src : 
         | none => ((a.takePending now m.tid).1, [])
         | some p =>
           ((hsRaw ((a.takePending now m.tid).1.modPair p.id (hsMark pd)) p pd).1.modPair p.id
-              fun p => { p with respRecv := p.respRecv + 1 },
+              (Pair.gotResponse now pd.ts),
            (hsRaw ((a.takePending now m.tid).1.modPair p.id (hsMark pd)) p pd).2) := by
   unfold Agent.handleSuccess
   rcases a.takePending now m.tid with ⟨a1, pend⟩
@@ -185,7 +185,7 @@ theorem handleSuccess_eq (a : Agent) (now : Nat) (m : Msg) (l r : Cand) (src : N
         | some p =>
           ((hsFin ((a.takePending now m.tid).1.modPair p.id (hsMark pd)) p pd
               (hsSel ((a.takePending now m.tid).1.modPair p.id (hsMark pd)) p pd).1).modPair p.id
-              fun p => { p with respRecv := p.respRecv + 1 },
+              (Pair.gotResponse now pd.ts),
            (hsSel ((a.takePending now m.tid).1.modPair p.id (hsMark pd)) p pd).2) := by
   rw [handleSuccess_raw]
   simp only [hsRaw_eq]
@@ -317,7 +317,7 @@ theorem handleSuccess_hsel (a : Agent) (now : Nat) (m : Msg) (l r : Cand) (src :
             · intro _ hn; exact (hi1.pairs p hpm).deferred hn
           have full : Inv3 a → HSel True a
               ((hsFin (a1.modPair p.id (hsMark pd)) p pd (hsSel (a1.modPair p.id (hsMark pd)) p pd).1).modPair p.id
-                  fun p => { p with respRecv := p.respRecv + 1 },
+                  (Pair.gotResponse now pd.ts),
                (hsSel (a1.modPair p.id (hsMark pd)) p pd).2) := by
             intro hi
             have k := key hi
@@ -327,7 +327,7 @@ theorem handleSuccess_hsel (a : Agent) (now : Nat) (m : Msg) (l r : Cand) (src :
             simp only [List.nil_append] at this
             exact (this.andThen (hsFin_pres (a1.modPair p.id (hsMark pd)) p pd a3)
                 (hsFin_cfg _ p pd a3).1 (hsFin_cfg _ p pd a3).2).andThen
-              (modPair_core _ _ (fun p => { p with respRecv := p.respRecv + 1 })
+              (modPair_core _ _ (Pair.gotResponse now pd.ts)
                 fun p => ⟨rfl, rfl, rfl, rfl, rfl, rfl, rfl, rfl, rfl, rfl, rfl, rfl⟩) rfl rfl
         · exact fun hi => (full hi).inv hi
         · exact fun hi => (full hi).rel hi
